@@ -211,9 +211,9 @@ pub(crate) mod verif_request {
     //@ family c07_rfc props=C07,C08,C09,C12 mode=strict mod=request::verif_request needs=src/message.rs must_cover=COVER:rejected
     //@ harness c07_rfc_n1_l24 tier=quick shape="frame + count=1 payload 12 B; frame length, tag, value symbolic"
     c07_rfc!(c07_rfc_n1_l24, 1, 24, 1, 8);
-    //@ harness c07_rfc_n2_l36 tier=quick shape="frame + count=2 payload 24 B; frame length, offsets, tags, values symbolic (too short for a nonce)" timeout=600
+    //@ harness c07_rfc_n2_l36 tier=thorough shape="frame + count=2 payload 24 B; frame length, offsets, tags, values symbolic (too short for a nonce)" timeout=600 required=no
     c07_rfc!(c07_rfc_n2_l36, 2, 36, 2, 8);
-    //@ harness c07_rfc_n2_l64 tier=quick shape="frame + count=2 payload 52 B (room for VER 4 + NONC 32); everything but magic and count symbolic" must_cover=COVER:accepted,COVER:rejected timeout=900 required=no
+    //@ harness c07_rfc_n2_l64 tier=thorough shape="frame + count=2 payload 52 B (room for VER 4 + NONC 32); everything but magic and count symbolic" must_cover=COVER:accepted,COVER:rejected timeout=900 required=no
     c07_rfc!(c07_rfc_n2_l64, 2, 64, 2, 8);
     //@ harness c07_rfc_n3_l104 tier=thorough shape="frame + count=3 payload 92 B (room for VER 4, SRV 32, NONC 32)" must_cover=COVER:accepted,COVER:rejected required=no
     c07_rfc!(c07_rfc_n3_l104, 3, 104, 3, 8);
@@ -293,6 +293,8 @@ pub(crate) mod verif_request {
     c12_ver!(c12_ver_k0, 0, 0, 60, false, true, 8);
     //@ harness c12_ver_k1 tier=quick shape="VER list of 1 symbolic word, no SRV" must_cover=COVER:answered,COVER:dropped
     c12_ver!(c12_ver_k1, 1, 0, 64, false, true, 8);
+    //@ harness c12_ver_k2 tier=quick shape="VER list of 2 symbolic words, no SRV" must_cover=COVER:answered,COVER:dropped
+    c12_ver!(c12_ver_k2, 2, 0, 68, false, true, 8);
     //@ harness c12_ver_k3 tier=quick shape="VER list of 3 symbolic words, no SRV" must_cover=COVER:answered,COVER:dropped
     c12_ver!(c12_ver_k3, 3, 0, 72, false, true, 8);
     //@ harness c12_ver_k4 tier=thorough shape="VER list of 4 symbolic words, no SRV" must_cover=COVER:answered,COVER:dropped
@@ -321,4 +323,53 @@ pub(crate) mod verif_request {
     c12_ver!(c12_srv36_k1, 1, 36, 108, true, true, 8);
     //@ harness c12_srv0_k1 tier=quick shape="VER 1 word + empty SRV"
     c12_ver!(c12_srv0_k1, 1, 0, 72, true, true, 8);
+
+    // ------------------------------------------------------------------ C12: the version scan on its own
+    /// get_supported_version on a message {VER: K arbitrary words} built through the API (no decoding
+    /// involved): draft-13 is found whenever it is among the first four entries, and only if it is in
+    /// the list at all.
+    pub fn scan_body<const K: usize, const VL: usize>() {
+        let words: [u8; VL] = vany_bytes::<VL>();
+        let mut msg = RtMessage::with_capacity(1);
+        msg.add_field(Tag::VER, &words[..4 * K]).unwrap();
+        let r = get_supported_version(&msg);
+        let mut anywhere = false;
+        let mut first4 = false;
+        let mut j = 0;
+        while j < K {
+            if le32(&words, 4 * j) == DRAFT13 {
+                anywhere = true;
+                if j < 4 {
+                    first4 = true;
+                }
+            }
+            j += 1;
+        }
+        vcover!(r.is_some(), "COVER:answered");
+        vcover!(r.is_none(), "COVER:dropped");
+        vassert!(r.is_none() || anywhere, "VERIF:C12:answered-only-if-version-list-contains-draft13");
+        vassert!(!first4 || r == Some(Version::RfcDraft13), "VERIF:C12:answered-when-draft13-among-first-four-and-srv-matches");
+        core::mem::forget(msg);
+    }
+    macro_rules! c12_scan {
+        ($name:ident, $k:expr, $vl:expr) => {
+            #[cfg_attr(kani, kani::proof)]
+            #[cfg_attr(kani, kani::unwind(8))]
+            #[cfg_attr(not(kani), test)]
+            fn $name() {
+                scan_body::<$k, $vl>();
+            }
+        };
+    }
+    //@ family c12_scan props=C12 mode=strict mod=request::verif_request needs=src/message.rs must_cover=COVER:dropped
+    //@ harness c12_scan_k0 tier=quick shape="version scan: empty VER value"
+    c12_scan!(c12_scan_k0, 0, 4);
+    //@ harness c12_scan_k1 tier=quick shape="version scan: 1 arbitrary word" must_cover=COVER:answered,COVER:dropped
+    c12_scan!(c12_scan_k1, 1, 4);
+    //@ harness c12_scan_k2 tier=quick shape="version scan: 2 arbitrary words" must_cover=COVER:answered,COVER:dropped
+    c12_scan!(c12_scan_k2, 2, 8);
+    //@ harness c12_scan_k4 tier=quick shape="version scan: 4 arbitrary words" must_cover=COVER:answered,COVER:dropped
+    c12_scan!(c12_scan_k4, 4, 16);
+    //@ harness c12_scan_k6 tier=quick shape="version scan: 6 arbitrary words" must_cover=COVER:answered,COVER:dropped
+    c12_scan!(c12_scan_k6, 6, 24);
 }
